@@ -189,6 +189,9 @@ pub struct TableProvider {
     pub cancel_at: Cell<u32>,
     pub cancel_sticky: Cell<bool>,
     pub reenter: bool,
+    /// get_candidates / get_dependencies suspend twice before they answer (modes "fifo2",
+    /// "lifo2"): a request future that has been polled more than once when it is dropped
+    pub two_stage: bool,
     strings: RefCell<HashMap<u32, String>>,
 }
 
@@ -217,6 +220,7 @@ impl TableProvider {
             cancel_at: Cell::new(cfg.cancel_at),
             cancel_sticky: Cell::new(cfg.cancel_sticky),
             reenter: cfg.reenter,
+            two_stage: cfg.mode.ends_with('2'),
             strings: RefCell::new(HashMap::new()),
         }
     }
@@ -409,6 +413,9 @@ impl DependencyProvider for TableProvider {
         let w = self.maps.wn(name);
         self.log(json!({"ev":"call","kind":"cands","arg":w,"inv":0}));
         self.gate("cands", w, 0).await;
+        if self.two_stage {
+            self.gate("cands", w, 0).await;
+        }
         let out = self.candidates_of(w);
         self.log(json!({"ev":"ret","kind":"cands","arg":w,"inv":0}));
         out
